@@ -75,10 +75,8 @@ def readPrim (blocks : List (Nat × Bytes)) (sz : Nat) (signed be : Bool) (a : I
   | some bs => decodeRd sz signed be bs
   | none => C.UNDEF
 
-def prim (blocks : List (Nat × Bytes)) (name : String) (args : List Int) : Int :=
-  match readerOf name, args with
-  | some (sz, sg, be), [a] => readPrim blocks sz sg be a
-  | _, _ =>
+/-- primitives on doubles and sized strings, by the (normalised) C text the translator found in exec.c -/
+def primPure (name : String) (args : List Int) : Int :=
   match name, args with
   | "-r1.d", [a] => fltToVm (-(vmToFlt a))
   | "(r1.d+r2.d)", [a, b] => fltToVm (vmToFlt a + vmToFlt b)
@@ -106,6 +104,15 @@ def prim (blocks : List (Nat × Bytes)) (name : String) (args : List Int) : Int 
   | "ss_iendswith(r1.ss,r2.ss)", [a, b] => C.b2i (strOp .iendswith (decSS a) (decSS b))
   | "(ss_icompare(r1.ss,r2.ss)==0)", [a, b] => C.b2i (strOp .iequals (decSS a) (decSS b))
   | _, _ => C.UNDEF
+
+/-- all primitives of the generated opcodes: the intN/uintN readers, then `primPure` -/
+def prim (blocks : List (Nat × Bytes)) (name : String) (args : List Int) : Int :=
+  match readerOf name with
+  | some (sz, sg, be) =>
+    match args with
+    | [a] => readPrim blocks sz sg be a
+    | _ => C.UNDEF
+  | none => primPure name args
 
 /-! ### instructions and state -/
 
